@@ -182,6 +182,19 @@ Theorem C08_payout_bounded : forall miner prev,
   slips_total (po_slips (payout_with_gt miner prev)) <= payout_bound prev.
 Proof. exact payout_bounded. Qed.
 
+(* the miner output of the fee transaction goes to the key of the golden ticket … *)
+Theorem C08_payout_miner_is_ticket_key : forall miner prev k a,
+  In (k, a, SLIP_MINER) (po_slips (payout_with_gt miner prev)) -> k = miner.
+Proof. exact payout_miner_slip. Qed.
+
+(* … and Block::validate lets a golden ticket through only if (random, key) re-targeted
+   at the PARENT's hash solves at the parent's difficulty ([solution_lz] is computed
+   against the real parent hash; the ticket's own target field is ignored) *)
+Theorem C08_golden_ticket_solves_parent : forall solution_lz difficulty,
+  difficulty < 4294967296 -> golden_ticket_solves solution_lz difficulty = true ->
+  difficulty <= solution_lz.
+Proof. exact golden_ticket_solves_sound. Qed.
+
 (* ================================================================== *)
 (* non-vacuity                                                         *)
 
